@@ -16,6 +16,8 @@ def register(db):
     register_leaf_nodes(db)
     register_element_text(db)
     register_bind_var(db)
+    register_bind_attr(db)
+    register_bind_object(db)
     P = ["C15"]
     assume_method(db, "NodeParserObj", "start", raises=["ParserError", "ConverterError", "XmlContextError"])
     assume_method(db, "NodeParserObj", "end", returns="bool", raises=["ParserError", "ConverterError", "XmlContextError"])
@@ -285,4 +287,53 @@ def register_bind_var(db):
                   "and call_recv('Any.append') is old(params)[var.name] and same_dict(params, old(params)))"),
                  ("a-field-that-is-not-a-constructor-argument-is-skipped", "implies(not var.init, result == True and same_dict(params, old(params)))")],
         raises={}, returns="bool", modifies=["params"], properties=["C10", "C15"],
+    ))
+
+
+def register_bind_attr(db):
+    """ElementNode.bind_attr: the value of a declared attribute is converted once by parse_var under the parser options
+    with the element's own prefix map (QName-valued attributes), and stored under the field name - or, for a field that
+    is no constructor argument, only checked against its fixed value."""
+    from .c10_strictness import element_node, NODES
+    EL = f"{NODES}.element:ElementNode"
+    PV, VF = "ParserUtils.parse_var", "ParserUtils.validate_fixed_value"
+    db.add(Contract(
+        f"{EL}.bind_attr", variant="converted-in-the-element-scope",
+        params={"self": element_node, "params": "dict[str,u:Any]", "var": "opaque:XmlVar", "value": "opaque:Any"},
+        ensures=[("converted-once-in-the-element-own-scope",
+                  f"called('{PV}') == 1 and call_arg('{PV}', 1) is self.meta and call_arg('{PV}', 2) is var and call_arg('{PV}', 3) is self.config "
+                  f"and call_arg('{PV}', 4) is value and call_arg('{PV}', 5) is self.ns_map"),
+                 ("stored-under-the-field-name", f"implies(var.init, var.name in params and params[var.name] is call_result('{PV}'))"),
+                 ("a-fixed-field-is-only-checked", f"implies(not var.init, same_dict(params, old(params)) and called('{VF}') == 1 and call_arg('{VF}', 3) is call_result('{PV}'))")],
+        raises={"ParserError": True, "ConverterError": True}, modifies=["params"], properties=["C15", "C09", "C10"],
+    ))
+
+
+def register_bind_object(db):
+    """ElementNode.bind_object: a parsed child object is offered to the fields declared for its name, in declaration
+    order; a field that belongs to another wrapper element than the one the child came in is never offered it; a
+    wildcard field absorbs it; the first field that accepts ends the search; False when none did."""
+    from .c10_strictness import element_node, NODES
+    EL = f"{NODES}.element:ElementNode"
+    BV, BW = "ElementNode.bind_var", "ElementNode.bind_wild_var"
+    db.add(Contract(f"{EL}.bind_wild_var", variant="call-view", trusted=True, call_default=True, params={}, returns="bool", modifies=["params"],
+                    raises={"ParserError": True, "ConverterError": True}, call_ensures=["result == True"],
+                    note="call-site view (verified under C15: always true, wildcard fields absorb any value)"))
+    db.add(Contract(f"{EL}.bind_var", variant="call-view", trusted=True, call_default=True, params={}, returns="bool", modifies=["params"], raises={},
+                    note="call-site view (the function itself is verified: repeating / single-valued / non-init fields)"))
+    db.add(Contract(f"{EL}.pop_wrapper", variant="call-view", trusted=True, call_default=True, params={}, returns="str|None", raises={},
+                    modifies=["self.wrappers"], note="call-site view (verified under C15)"))
+    W = "call_result('ElementNode.pop_wrapper')"
+    OTHER = f"({W} is not None and len({W}) > 0 and var.wrapper_qname != {W})"
+    db.add(Contract(
+        f"{EL}.bind_object", params={"self": element_node, "params": "opaque:PyDict", "qname": "str", "value": "opaque:Any"},
+        ensures=[("the-wrapper-the-child-came-in-is-looked-up-once", "called('ElementNode.pop_wrapper') == 1 and call_arg('ElementNode.pop_wrapper', 1) == qname")],
+        raises={"ParserError": True, "ConverterError": True}, returns="bool",
+        loops=[Loop(invariants=[], header="self.meta.find_children(qname)",
+                    step=[("a-field-of-another-wrapper-is-never-offered-the-object", f"implies({OTHER}, called('{BV}') == 0 and called('{BW}') == 0)"),
+                          ("a-wildcard-field-absorbs-it", f"implies(not {OTHER} and var.is_wildcard, called('{BW}') == 1 and called('{BV}') == 0 and "
+                                                           f"call_arg('{BW}', 2) is var and call_arg('{BW}', 3) == qname and call_arg('{BW}', 4) is value)"),
+                          ("any-other-field-is-offered-the-object-once", f"implies(not {OTHER} and not var.is_wildcard, called('{BV}') == 1 and called('{BW}') == 0 and "
+                                                                         f"call_arg('{BV}', 2) is var and call_arg('{BV}', 3) is value)")])],
+        modifies=["self.wrappers"], properties=["C10", "C15"],
     ))
